@@ -18,12 +18,25 @@ def frame0_field(f, op):
     if r[0] != "place":
         return None
     pl = r[1]
+    # the frame may be reached through the Some payload of `self.0.first_mut()`: drop that part of the projection
+    for i_, e_ in enumerate(pl["p"]):
+        if isinstance(e_, dict) and e_.get("downcast") == "Some" and i_ + 1 < len(pl["p"]):
+            pl = {"l": pl["l"], "p": pl["p"][i_ + 2:]}
+            break
     fp = f.field_path(pl)
     base = pl["l"]
     if base <= f.argc:
         # direct projection of self: self.0[const 0].x  (ConstantIndex / Index)
         return None
     d = f.single_def(base)
+    # `if let Some(frame) = self.0.first_mut()`: the named local is the Some payload of the call's result
+    for _ in range(3):
+        if d and d[1] != "term" and d[2]["rv"]["k"] == "use":
+            q = M.op_place(d[2]["rv"]["a"])
+            if q is not None and any(isinstance(e, dict) and e.get("downcast") == "Some" for e in q["p"]):
+                d = f.single_def(q["l"])
+                continue
+        break
     if not d or d[1] != "term":
         return None
     t = d[2]
@@ -77,8 +90,8 @@ def namespace_writers(P, res):
     res.floor("NAMESPACE-WRITERS", "functions storing StackFrame.namespace", n_w, 5)
 
 
-def run(ctx, res):
-    P = ctx.P
+def frame_cover(P, res):
+    """FRAME-COVER (shared with C09): pop_to_toplevel resets every per-evaluation field of the surviving frame."""
     table = json.load(open(os.path.join(VERIF, "tables", "c10_frame_fields.json")))
     state = table["state"]
     ident = table["identity"]
@@ -145,15 +158,38 @@ def run(ctx, res):
             empties = D.call_switches(f, "::is_empty")
             byp = [b for b in rets if b in r]
             allowed = set()
+            nonempty_starts = []
             for sw in empties:
                 allowed |= D.reach_from(f, [sw["true"]], avoid_blocks=[bi])
-            skipped = [b for b in byp if not (b in allowed and all(b not in D.reach_from(f, [sw["false"]], avoid_blocks=[bi]) for sw in empties))]
+                nonempty_starts.append(sw["false"])
+            # the same early exit written as `if let Some(frame) = self.0.first_mut() { .. }`: the None edge
+            for es in D.enum_switches(f):
+                pl_ = es["place"]
+                d_ = f.single_def(pl_["l"]) if not pl_["p"] else None
+                if d_ and d_[1] == "term" and (M.callee_name(d_[2]) or "").endswith(("::first_mut", "::get_mut", "::first", "::last_mut")):
+                    a0_ = f.root_of(d_[2]["args"][0], through_named=True)
+                    if a0_[0] == "place" and a0_[1]["l"] == 1 and f.field_path(a0_[1]) == ["0"]:
+                        for tgt, names in es["by_target"].items():
+                            if names == ["None"]:
+                                allowed |= D.reach_from(f, [tgt], avoid_blocks=[bi])
+                            else:
+                                nonempty_starts.append(tgt)
+                        if es["otherwise_variants"] == ["None"]:
+                            allowed |= D.reach_from(f, [es["otherwise"]], avoid_blocks=[bi])
+                        elif es["otherwise_variants"]:
+                            nonempty_starts.append(es["otherwise"])
+            skipped = [b for b in byp if not (b in allowed and all(b not in D.reach_from(f, [st_], avoid_blocks=[bi]) for st_ in nonempty_starts))]
             if skipped:
                 res.bad("FRAME-COVER", "env::StackFrame.%s # conditional-reset" % path,
                         "the reset of `%s` can be skipped on a path other than the empty-stack early return" % path, f.loc(f.blocks[bi]["term"]["span"]))
             else:
                 res.ok("FRAME-COVER", "env::StackFrame.%s reset by %s on every path" % (path, sig))
                 res.sample({"rule": "FRAME-COVER", "field": path, "reset": sig})
+
+
+def run(ctx, res):
+    P = ctx.P
+    frame_cover(P, res)
     # ---- ABORT-CALLS
     rc = P.require_fn("commands::run_command")
     pops = [bi for bi, t in rc.calls() if M.callee_name(t) == "env::Stack::pop_to_toplevel"]
